@@ -23,6 +23,12 @@ static void init_fmts(void)
 		} else if (i < NSTD + NLEN) {
 			n = snprintf(fmts[i], sizeof(fmts[i]), "g%%lu ");
 			memset(fmts[i] + n, 'y', i - NSTD); n += i - NSTD;
+		} else if (i % 5 == 4) {
+			/* no conversion at all, only literal per cent signs: the text carries the format's index (the message is the
+			 * latest one logged with that format - the window is far shorter than the format table) */
+			static const char *const plain[3] = { "p%d 100%%%% done|%%%%|a%%%%b%%%%%%%%c\n", "p%d%%%%\n", "p%d plain text\n" };
+			snprintf(fmts[i], sizeof(fmts[i]), plain[(i / 5) % 3], i);
+			continue;
 		} else {
 			strcpy(fmts[i], star[i % 4]);
 			continue;
@@ -52,6 +58,11 @@ static long parse(const char *s)
 	if (!s) return -1;
 	if (s[0] == 'f') { if (sscanf(s, "f%d %lu", &fi, &id) != 2) return -2; }
 	else if (s[0] == 'g' || s[0] == 's') { if (sscanf(s + 1, "%lu", &id) != 1) return -2; }
+	else if (s[0] == 'p') {
+		if (sscanf(s + 1, "%d", &fi) != 1 || fi < 0 || fi >= NFMT) return -2;
+		unsigned long last = (nextid + (1ul << 30) - 1) % (1ul << 30);
+		id = (last + (1ul << 30) - (last + NFMT - (unsigned long)fi) % NFMT) % (1ul << 30);
+	}
 	else return -2;
 	args_of(id, a);
 	snprintf(want, sizeof(want), fmts[id % NFMT], a[0], a[1], a[2]);
@@ -206,6 +217,20 @@ int main(void)
 				do_burst(1ul << 30); do_burst(1ul << 30); do_burst(1ul << 30); do_burst(1ul << 30); for (int i = 0; i < 5; i++) do_log(0);
 			}
 			do_readall(); do_dump(); do_log(1); do_log(1); do_readsome(); do_log(0); do_readall();
+		}
+		else if (drv_is(&c, "Sweep")) {
+			/* a long natural history from a clear (no hook), looked at whenever the number of messages logged so far is
+			 * round: multiples of 10^6, of 2^16 (up to 2^24) and of 2^24 */
+			unsigned long upto = (unsigned long)drv_arg(&c, 0) * 1000000ul, at = 0;
+			do_clear();
+			while (at < upto) {
+				unsigned long a = (at / 1000000 + 1) * 1000000, b = at < (1ul << 24) ? (at / 65536 + 1) * 65536 : (at / (1ul << 24) + 1) << 24;
+				unsigned long nxt = a < b ? a : b;
+				if (nxt - at > (1ul << 30)) nxt = at + (1ul << 30);
+				do_burst(nxt - at); at = nxt;
+				do_readsome(); do_log(1); do_log(0); at++; do_read(0); do_read(255); do_read(256);
+			}
+			do_readall(); do_dump();
 		}
 		else if (drv_is(&c, "NiceFar")) {
 			/* the counter is set, 256 messages refill the window, then mlog_nice is tried: bases whose low 8 / 16 / 24 bits
